@@ -45,6 +45,39 @@ func checkC05(c C05Case) *Violation {
 		if !bytes.Equal(a.Stdout, b.Stdout) {
 			return vio("notation-differs", "one progression, two results\ndegrees:    %q\nnote names: %q (--key %s)\n--- from degrees\n%s--- from note names\n%s", deg, syl, c.Key, clip(string(a.Stdout), 1500), clip(string(b.Stdout), 1500))
 		}
+		// a {key=..} inside the piece applies from the chord that carries it onwards: the common result, played,
+		// must sound what the progression says (checked where the piece changes key at all)
+		changes, playable := false, true
+		for i, it := range c.Items {
+			if i > 0 && it.Key != nil {
+				changes = true
+			}
+			if !it.Rest && !isDisplay(it.Sym) {
+				playable = false // a symbol outside the dictionary: `text conv` carries it, `write` would refuse it
+			}
+		}
+		if changes && playable {
+			wr := crd(string(b.Stdout), "write", "--key", c.Key)
+			if v := cleanOutcome(wr); v != nil {
+				return v
+			}
+			ctx := fmt.Sprintf("\nnote names: %q (--key %s) ->\n%s", syl, c.Key, clip(string(b.Stdout), 1500))
+			if wr.Exit != 0 {
+				return vio("keychange-refused-by-write", "`crd write` refuses the converted piece: %s%s", firstLines(wr.Stderr, 2), ctx)
+			}
+			_, song, err := decode(wr.Stdout)
+			if err != nil {
+				return vio("not-smf", "%v", err)
+			}
+			d := ProgressionDoc(c.Items)
+			k := c.Key
+			d.Flags.Key = &k
+			if v := comparePitches(d, song); v != nil {
+				v.Sig = "keychange-" + v.Sig
+				v.Msg += ctx
+				return v
+			}
+		}
 	case "transpose":
 		d := ProgressionDoc(c.Items)
 		k1, k2 := c.Key, c.Key2
@@ -229,3 +262,12 @@ func TestC05(t *testing.T) {
 }
 
 func strp(s string) *string { return &s }
+
+func isDisplay(sym string) bool {
+	for _, d := range theory.Displays {
+		if d == sym {
+			return true
+		}
+	}
+	return false
+}
